@@ -389,7 +389,7 @@ def r5_ranks(ctx, res):
     forms_rank = {d[-1] for d in descs('forms', 'rank')}
     key = 'rank:forms'
     res.inst(key, 'wn/_add.py', f'forms.rank <- {sorted(forms_rank)}')
-    if forms_rank != {'const:0', 'enum(1)@LexicalEntry.forms'}:
+    if forms_rank != {'const:0', 'enum(1)@LexicalEntry.forms?=[]'}:
         res.find(key, 'wn/_add.py', f'forms.rank is written from {sorted(forms_rank)}; expected 0 for the lemma and '
                                     f'enumerate(forms, 1) for further forms')
     for t in ('tags', 'pronunciations'):
@@ -398,7 +398,7 @@ def r5_ranks(ctx, res):
         for d in descs(t, 'form_rowid'):
             got.add(d[-1])
         res.inst(key, 'wn/_add.py', f'{t}.form_rowid rank argument <- {sorted(got)}')
-        want = {'const:0', '(const:-1 if external(Form) else enum(1)@LexicalEntry.forms)'}
+        want = {'const:0', '(const:-1 if external(Form) else enum(1)@LexicalEntry.forms?=[])'}
         if got != want:
             res.find(key, 'wn/_add.py', f'{t} rows find their form with rank {sorted(got)}, but forms are stored with rank '
                                         f'{sorted(forms_rank)} (expected lookup ranks {sorted(want)}): the child rows attach to the '
@@ -406,26 +406,19 @@ def r5_ranks(ctx, res):
     key = 'rank:senses.entry_rank'
     er = {d[-1] for d in descs('senses', 'entry_rank')}
     res.inst(key, 'wn/_add.py', f'{sorted(er)}')
-    if er != {'enum(0)@_local_senses(LexicalEntry.senses)'}:
+    if er != {'enum(0)@_local_senses(LexicalEntry.senses?=[])'}:
         res.find(key, 'wn/_add.py', f'senses.entry_rank is written from {sorted(er)}; expected the index of the sense among the '
                                     f"entry's local senses")
     key = 'rank:senses.synset_rank'
     sr = {d[-1] for d in descs('senses', 'synset_rank')}
     res.inst(key, 'wn/_add.py', f'{sorted(sr)}')
-    if sr != {'ssrank.get(Sense.id, DEFAULT_MEMBER_RANK)'}:
-        res.find(key, 'wn/_add.py', f'senses.synset_rank is written from {sorted(sr)}')
-    f = ctx.repo.func('_add', '_insert_senses')
-    ok = False
-    for n in walk_no_nested(f.node):
-        if isinstance(n, ast.DictComp) and norm(n.key) == 's' and norm(n.value) == 'i':
-            gens = [norm(g.iter) for g in n.generators]
-            tg = [norm(g.target) for g in n.generators]
-            if gens == ['_local_synsets(synsets)', "enumerate(ss.get('members', []))"] and tg == ['ss', '(i, s)']:
-                ok = True
+    want_sr = ('dict[each(Synset.members?=[]): enum(0)@Synset.members?=[] over _local_synsets(param:synsets) , '
+               'enumerate(Synset.members?=[])].get(Sense.id, DEFAULT_MEMBER_RANK)')
+    if sr != {want_sr}:
+        res.find(key, 'wn/_add.py', f'senses.synset_rank is written from {sorted(sr)}; expected the position of the sense id in '
+                                    f'Synset@members over the local synsets (default DEFAULT_MEMBER_RANK)')
     k2 = 'rank:ssrank-map'
-    res.inst(k2, f.module.loc(f.node), 'ssrank = {member id: index in Synset.members}')
-    if not ok:
-        res.find(k2, f.module.loc(f.node), 'the member-rank map is no longer {sense id: position in Synset@members} over the local synsets')
+    res.inst(k2, 'wn/_add.py', 'member id -> index in Synset.members')
     # ORDER BY of the readers
     wants = {
         ('_queries.find_entries', None): 'f.rank',
